@@ -9,6 +9,8 @@ mod c04;
 mod c14;
 mod c15;
 mod c17;
+mod c18;
+mod c19;
 mod rwalk;
 mod c20;
 mod cval;
@@ -106,6 +108,8 @@ fn main() {
         "C15" => c15::run_c15(&ctx),
         "C16" => c15::run_c16(&ctx),
         "C17" => c17::run(&ctx),
+        "C18" => c18::run(&ctx),
+        "C19" => c19::run(&ctx),
         "C20" => c20::run(&ctx),
         _ => {
             eprintln!("unknown property id {id}");
